@@ -98,6 +98,31 @@ def routeViolation (typ fb : String) (refreshOnMiss : Bool) (outcome : Refresh) 
   else if !clauseDecisionAgrees outcome healthy listers o then some "decision-disagrees-with-result"
   else none
 
+/-! ### Which endpoints "list M" when all we have is the listings
+
+"whose latest model listing contains M (by native name, unified id or alias)". Native names are exact;
+unified ids and aliases are produced by the unifier (case-insensitive name match, equal digests) and are
+the subject of C10. For observations made through the real registry the driver therefore brackets the
+lister set: `listersLower` (M is literally a native name in the listing) ⊆ what the registry may resolve
+⊆ `listersUpper` (some listed model has M's name ignoring case, or shares a digest with such a model). -/
+
+structure Mdl where
+  name   : String
+  digest : String
+deriving Repr, DecidableEq, Inhabited
+
+def sameName (m : String) (x : Mdl) : Bool := x.name.toLower == m.toLower
+
+def indexed {α} (l : List α) : List (Nat × α) := (List.range l.length).zip l
+
+def listersLower (listings : List (List Mdl)) (m : String) : List Ep :=
+  (indexed listings).filterMap (fun (i, l) => if l.any (fun x => x.name == m) then some i else none)
+
+def listersUpper (listings : List (List Mdl)) (m : String) : List Ep :=
+  let digests := (listings.flatten.filter (fun x => sameName m x && x.digest != "")).map (·.digest)
+  (indexed listings).filterMap (fun (i, l) =>
+    if l.any (fun x => sameName m x || (x.digest != "" && digests.contains x.digest)) then some i else none)
+
 /-! ### HTTP level (what the client and the backends see) -/
 
 /-- What the harness observed for one client request. -/
@@ -113,30 +138,36 @@ deriving Repr, DecidableEq
 def httpFallbackAll (typ fb : String) (refreshOnMiss : Bool) (healthy : List Ep) : Bool :=
   fallbackAllApplies typ fb refreshOnMiss (.ok healthy) healthy
 
-def httpViolation (typ fb : String) (refreshOnMiss : Bool) (healthy listers : List Ep) (o : HttpObs) : Option String :=
-  let sv := served healthy listers
+/-- `lo ⊆ up` bracket the endpoints that list M (see above); with exact knowledge `lo = up = listers`. -/
+def httpViolation2 (typ fb : String) (refreshOnMiss : Bool) (healthy lo up : List Ep) (o : HttpObs) : Option String :=
+  let svLo := served healthy lo
+  let svUp := served healthy up
   -- forwarded only to healthy endpoints (always) that list M (sound configurations)
-  if (match o.backend with | some e => !healthy.contains e || (soundConfig typ fb && !listers.contains e) | none => false)
+  if (match o.backend with | some e => !healthy.contains e || (soundConfig typ fb && !up.contains e) | none => false)
     then some "forwarded-to-unlisted-or-unhealthy"
   -- some healthy endpoint lists M: it is served by such an endpoint
-  else if !sv.isEmpty && !(match o.backend with | some e => sv.contains e | none => false)
+  else if !svLo.isEmpty && !(match o.backend with | some e => svUp.contains e | none => false)
     then some "served-model-not-routed"
   -- sound configuration, nothing serves M: rejected, as 404 / 503
-  else if soundConfig typ fb && sv.isEmpty && (o.backend.isSome || o.status != rejectStatus listers)
+  else if soundConfig typ fb && svUp.isEmpty &&
+      (o.backend.isSome || (o.status != rejectStatus lo && o.status != rejectStatus up))
     then some "reject-status-wrong"
   -- fallback all: goes to the healthy set
-  else if httpFallbackAll typ fb refreshOnMiss healthy && sv.isEmpty && !healthy.isEmpty &&
+  else if httpFallbackAll typ fb refreshOnMiss healthy && svUp.isEmpty && !healthy.isEmpty &&
       !(match o.backend with | some e => healthy.contains e | none => false)
     then some "fallback-all-not-healthy-set"
   -- headers, whenever present, agree with what was done
   else if (match o.hDecision with
       | none => false
       | some d =>
-        if d == actionRouted then !(match o.backend with | some e => sv.contains e | none => false)
+        if d == actionRouted then !(match o.backend with | some e => svUp.contains e | none => false)
         else if d == actionFallback then !(match o.backend with | some e => healthy.contains e | none => false)
         else if d == actionRejected then o.backend.isSome
         else true)
     then some "headers-disagree-with-result"
   else none
+
+def httpViolation (typ fb : String) (refreshOnMiss : Bool) (healthy listers : List Ep) (o : HttpObs) : Option String :=
+  httpViolation2 typ fb refreshOnMiss healthy listers listers o
 
 end Olla.Spec.C09
